@@ -7,6 +7,7 @@ P=$1; shift
 [ -d "$D/verif" ] || /verif/tools/sandbox.sh "$D" >/dev/null
 rsync -a --exclude .git --exclude work --exclude evidence --exclude replays --exclude harness/go.mod --exclude .lake /verif/ "$D/verif/"
 rsync -a /verif/lean/.lake/ "$D/verif/lean/.lake/"
+rsync -a --delete /repo/ "$D/repo/"   # the committed state of /repo (its working tree is clean unless a seed run is in progress)
 git -C "$D/repo" checkout -q -- . ; git -C "$D/repo" clean -fdq
 git -C "$D/repo" apply "$P"
 for p in "$@"; do
